@@ -90,50 +90,47 @@ def r1(R, m):
         R.shape(len(loops) == 1 and is_prange(loops[0]), "C15.R1", REL, "numbalabelNd", "the single prange sweep (or a blocked sweep prange(nblk) x range(block))")
         lp = loops[0]
         it = lp.iter
-        R.check(isinstance(it, ast.Call) and len(it.args) == 1 and src(it.args[0]).replace(" ", "") == nexpr.replace(" ", ""), "C15.R1", REL, lp.lineno, "numbalabelNd",
+        R.check(isinstance(it, ast.Call) and len(it.args) == 1 and pyfacts.resolved_src(fn, it.args[0], 3, keep=tuple(a.arg for a in fn.args.args)).replace(" ", "") == nexpr.replace(" ", ""),
+                "C15.R1", REL, lp.lineno, "numbalabelNd",
                 "the sweep runs over prange(%s)" % nexpr, "the sweep does not visit every edge: %s" % src(it))
     args = [a.arg for a in fn.args.args]
     ei, ej, lab = args[0], args[1], args[2]
-    env = {}
-    for s in ast.walk(lp):
-        if isinstance(s, ast.Assign) and isinstance(s.targets[0], ast.Name):
-            env[s.targets[0].id] = s.value
+    # every expression is read with uniquely-defined locals replaced by their definitions (ip = i[p]; pkid[ip] = m  reads as
+    # pkid[i[k + flip * (len(i) - 1 - 2 * k)]] = min(...)), so the names and the number of temporaries are free
+    loopvars = tuple(src(l.target) for l in ast.walk(fn) if isinstance(l, ast.For))
+    rs = lambda n: pyfacts.resolved_src(fn, n, 6, keep=tuple(args) + loopvars).replace(" ", "")
+    kv = src(lp.target)
+    PERMS = ("%s+flip*(len(%s)-1-2*%s)" % (kv, ei, kv), kv)
     stores = [s for s in ast.walk(lp) if isinstance(s, (ast.Assign, ast.AugAssign)) and isinstance((s.targets[0] if isinstance(s, ast.Assign) else s.target), ast.Subscript)]
     R.check(len(stores) == 2 and all(isinstance(s, ast.Assign) for s in stores), "C15.R1", REL, lp.lineno, "numbalabelNd", "exactly two array stores in the sweep (%d found)" % len(stores),
             "the sweep writes something other than the two ends of the edge")
     if len(stores) != 2:
         return
-    tg = sorted(src(s.targets[0]) for s in stores)
-    # index variable p of the edge
-    pvars = set()
+    tg = sorted(rs(s.targets[0]) for s in stores)
+    ptexts = set()
     for s in stores:
-        t = s.targets[0]
-        R.check(src(t.value) == lab and isinstance(t.slice, ast.Subscript) and src(t.slice.value) in (ei, ej) and isinstance(t.slice.slice, ast.Name),
-                "C15.R1", REL, s.lineno, "numbalabelNd", "store target %s" % src(t), "a store does not go to pkid[i[p]] / pkid[j[p]]")
-        if isinstance(t.slice, ast.Subscript) and isinstance(t.slice.slice, ast.Name):
-            pvars.add(t.slice.slice.id)
-    R.check(len(pvars) == 1 and tg == sorted(["%s[%s[%s]]" % (lab, ei, list(pvars)[0]), "%s[%s[%s]]" % (lab, ej, list(pvars)[0])]) if pvars else False,
+        t = rs(s.targets[0])
+        mm = re.match(r"^%s\[(%s|%s)\[(.*)\]\]$" % (re.escape(lab), re.escape(ei), re.escape(ej)), t)
+        R.check(mm is not None, "C15.R1", REL, s.lineno, "numbalabelNd", "store target %s" % t, "a store does not go to pkid[i[p]] / pkid[j[p]]")
+        if mm:
+            ptexts.add(mm.group(2))
+    R.check(len(ptexts) == 1 and tg == sorted(["%s[%s[%s]]" % (lab, ei, list(ptexts)[0]), "%s[%s[%s]]" % (lab, ej, list(ptexts)[0])]) if ptexts else False,
             "C15.R1", REL, lp.lineno, "numbalabelNd", "both ends of the same edge are written: %s" % tg, "the two stores are not the two ends of one edge")
-    if len(pvars) != 1:
+    if len(ptexts) != 1:
         return
-    p = list(pvars)[0]
-    vals = set(src(s.value) for s in stores)
+    P = list(ptexts)[0]
+    vals = set(rs(s.value) for s in stores)
     R.check(len(vals) == 1, "C15.R1", REL, lp.lineno, "numbalabelNd", "both ends receive the same value %s" % vals, "the two ends receive different labels")
     mv = list(vals)[0]
-    mdef = env.get(mv)
-    ok = isinstance(mdef, ast.Call) and pyfacts.dotted(mdef.func) == "min" and len(mdef.args) == 2
-    rd = {}
-    if ok:
-        for a in mdef.args:
-            d = env.get(src(a))
-            rd[src(a)] = src(d) if d is not None else None
-        ok = sorted(rd.values(), key=str) == sorted(["%s[%s[%s]]" % (lab, ei, p), "%s[%s[%s]]" % (lab, ej, p)])
-    R.check(ok, "C15.R1", REL, lp.lineno, "numbalabelNd", "%s = min(%s) with values read from the same edge" % (mv, rd),
+    ends = ["%s[%s[%s]]" % (lab, ei, P), "%s[%s[%s]]" % (lab, ej, P)]
+    ok = mv in ("min(%s,%s)" % (ends[0], ends[1]), "min(%s,%s)" % (ends[1], ends[0]))
+    R.check(ok, "C15.R1", REL, lp.lineno, "numbalabelNd", "stored value %s = min of the two labels read from the same edge" % mv,
             "the stored label is not the minimum of the two current labels of that edge: labels could leave the component or grow")
+    rd = {ends[0]: ends[0], ends[1]: ends[1]}
     # guard and reduction
     cfgf = pyfacts.PyCFG(fn)
     for s in stores:
-        g = [(src(t), pol) for t, pol in cfgf.guards(cfgf.node_of(s))]
+        g = [(rs(t).replace("!=", " != "), pol) for t, pol in cfgf.guards(cfgf.node_of(s))]
         names = list(rd.keys()) if rd else []
         okg = len(names) == 2 and (("%s != %s" % (names[0], names[1]), True) in g or ("%s != %s" % (names[1], names[0]), True) in g)
         R.check(okg, "C15.R1", REL, s.lineno, "numbalabelNd", "store guarded by %s != %s" % tuple(names) if len(names) == 2 else "store guard",
@@ -151,40 +148,88 @@ def r1(R, m):
         init = [s for s in fn.body if isinstance(s, ast.Assign) and src(s.targets[0]) == src(red[0].target)]
         R.check(len(init) == 1 and src(init[0].value) == "0", "C15.R1", REL, fn.lineno, "numbalabelNd", "counter starts at 0", "counter not initialised to 0")
     # p is a bijection of k : k + flip*(N-2k) with N = len(i)-1
-    pd = env.get(p)
-    R.check(pd is not None and src(pd).replace(" ", "") in ("k+flip*(N-2*k)", "k"), "C15.R1", REL, lp.lineno, "numbalabelNd", "edge index p = %s" % (src(pd) if pd is not None else None),
+    R.check(P in PERMS, "C15.R1", REL, lp.lineno, "numbalabelNd", "edge index p = %s" % P,
             "the edge visited is not a permutation of the loop index: some edges may never be visited")
 
 
 def r2(R, m):
     R.rule("C15.R2", "find_ND_labels: labels start as arange(npks); the loop is left only when the latest sweep over (i, j, labels) returned 0")
-    fn = m.func("find_ND_labels")
+    fn = m.ifunc("find_ND_labels", keep=("numbalabelNd", "get_clean_labels"))
     init = [s for s in fn.body if isinstance(s, ast.Assign) and src(s.targets[0]) == "labels"]
     R.check(len(init) == 1 and "arange(npks" in src(init[0].value), "C15.R2", REL, fn.lineno, "find_ND_labels", "labels = np.arange(npks)", "labels do not start as the identity")
-    loops = [l for l in ast.walk(fn) if isinstance(l, (ast.While, ast.For)) and any(
-        isinstance(c, ast.Call) and pyfacts.dotted(c.func) == "numbalabelNd" for c in ast.walk(l))]
-    R.shape(len(loops) == 1, "C15.R2", REL, "find_ND_labels", "the fixed-point loop around numbalabelNd")
-    lp = loops[0]
-    if isinstance(lp, ast.For):
-        R.check(False, "C15.R2", REL, lp.lineno, "find_ND_labels", "iteration to the fixed point: %s" % src(lp).splitlines()[0],
-                "the sweeps are repeated a bounded number of times: long chains need more sweeps and would be left partly merged")
-        return
-    brk = [b for b in ast.walk(lp) if isinstance(b, ast.Break)]
-    R.check(len(brk) == 1, "C15.R2", REL, lp.lineno, "find_ND_labels", "single exit from the loop", "more than one way out of the fixed-point loop")
-    if brk:
-        par = getattr(brk[0], "_parent", None)
-        R.check(isinstance(par, ast.If) and src(par.test) in ("b == 0", "0 == b", "not b"), "C15.R2", REL, brk[0].lineno, "find_ND_labels", "exit test %s" % (src(par.test) if isinstance(par, ast.If) else None),
-                "the loop can stop while edges still disagree")
-    R.check(src(lp.test) in ("1", "True"), "C15.R2", REL, lp.lineno, "find_ND_labels", "while 1", "loop condition can end the iteration early")
-    calls = [a for a in ast.walk(fn) if isinstance(a, ast.Assign) and isinstance(a.value, ast.Call) and pyfacts.dotted(a.value.func) == "numbalabelNd"]
-    R.check(len(calls) == 2 and all(src(a.targets[0]) == "b" and [src(x) for x in a.value.args[:3]] == ["i", "j", "labels"] for a in calls), "C15.R2", REL, fn.lineno, "find_ND_labels",
-            "b = numbalabelNd(i, j, labels, ...) before and inside the loop", "the tested count does not come from a sweep over the same edge list and label array")
-    if len(calls) == 2:
-        inner = [a for a in calls if any(a is x for x in ast.walk(lp))]
-        R.check(len(inner) == 1 and brk and inner[0].lineno > brk[0].lineno, "C15.R2", REL, lp.lineno, "find_ND_labels", "a new sweep follows every non-zero count",
-                "the count tested at the exit is not that of the latest sweep")
-    post = [s for s in fn.body if isinstance(s, ast.Assign) and isinstance(s.value, ast.Call) and pyfacts.dotted(s.value.func) == "get_clean_labels"]
-    R.check(len(post) == 1 and src(post[0].value.args[0]) == "labels" and post[0].lineno > lp.lineno, "C15.R2", REL, fn.lineno, "find_ND_labels", "get_clean_labels(labels) after convergence", "renumbering does not follow convergence")
+    # path property on the flow graph: every path that reaches the renumbering comes from a sweep  T = numbalabelNd(i, j, labels, ..)
+    # followed, with no newer sweep and no other assignment of T in between, by a branch that implies T == 0.  The shape of the
+    # loop (while 1 + break, while T != 0, helpers for the progress output) is free.
+    sweeps = [c for c in ast.walk(fn) if isinstance(c, ast.Call) and pyfacts.dotted(c.func) == "numbalabelNd"]
+    R.shape(len(sweeps) >= 1, "C15.R2", REL, "find_ND_labels", "calls of numbalabelNd")
+    for c in sweeps:
+        st = pyfacts.containing_stmt(c)
+        R.check([src(x) for x in c.args[:3]] == ["i", "j", "labels"] and isinstance(st, ast.Assign) and st.value is c and len(st.targets) == 1 and isinstance(st.targets[0], ast.Name),
+                "C15.R2", REL, c.lineno, "find_ND_labels", "T = numbalabelNd(i, j, labels, ...)", "the tested count does not come from a sweep over the same edge list and label array")
+    post_ = [s_ for s_ in ast.walk(fn) if isinstance(s_, ast.Assign) and isinstance(s_.value, ast.Call) and pyfacts.dotted(s_.value.func) == "get_clean_labels"]
+    R.shape(len(post_) == 1, "C15.R2", REL, "find_ND_labels", "the get_clean_labels call")
+    cfg = pyfacts.PyCFG(fn)
+    target = cfg.node_of(post_[0])
+
+    def implies_zero(e, pol, v):
+        if isinstance(e, ast.UnaryOp) and isinstance(e.op, ast.Not):
+            return implies_zero(e.operand, not pol, v)
+        if isinstance(e, ast.BoolOp):
+            if isinstance(e.op, ast.And) and pol:
+                return any(implies_zero(x, True, v) for x in e.values)
+            if isinstance(e.op, ast.Or) and not pol:
+                return any(implies_zero(x, False, v) for x in e.values)
+            return False
+        if isinstance(e, ast.Name):
+            return e.id == v and not pol
+        if isinstance(e, ast.Compare) and len(e.ops) == 1:
+            l, r, op = e.left, e.comparators[0], type(e.ops[0]).__name__
+            flip = {"Lt": "Gt", "Gt": "Lt", "LtE": "GtE", "GtE": "LtE", "Eq": "Eq", "NotEq": "NotEq"}
+            if isinstance(r, ast.Name) and r.id == v and isinstance(l, ast.Constant):
+                l, r, op = r, l, flip.get(op)
+            if not (isinstance(l, ast.Name) and l.id == v and isinstance(r, ast.Constant) and isinstance(r.value, int) and not isinstance(r.value, bool)):
+                return False
+            c0 = r.value
+            # the sweep count is >= 0
+            true_zero = {"Eq": c0 == 0, "LtE": c0 == 0, "Lt": c0 == 1}
+            false_zero = {"NotEq": c0 == 0, "Gt": c0 == 0, "GtE": c0 == 1}
+            return bool((true_zero if pol else false_zero).get(op, False))
+        return False
+
+    def transfer(n, toks):
+        if n.k == "assume":
+            return frozenset(("Z", t[1]) if t != "N" and implies_zero(n.node, n.pol, t[1]) else t for t in toks)
+        if n.k == "stmt" and isinstance(n.node, ast.Assign) and isinstance(n.node.value, ast.Call) and pyfacts.dotted(n.node.value.func) == "numbalabelNd" \
+                and len(n.node.targets) == 1 and isinstance(n.node.targets[0], ast.Name):
+            return frozenset([("S", n.node.targets[0].id)])
+        if n.k == "stmt" and isinstance(n.node, (ast.Assign, ast.AugAssign, ast.AnnAssign, ast.For)):
+            tg = n.node.targets if isinstance(n.node, ast.Assign) else [n.node.target]
+            names = {x.id for t in tg for x in ast.walk(t) if isinstance(x, ast.Name)}
+            return frozenset("N" if (t != "N" and t[1] in names) else t for t in toks)
+        return toks
+    state = {cfg.entry.id: frozenset(["N"])}
+    work = [cfg.entry.id]
+    outs = {}
+    while work:
+        nid = work.pop()
+        o = transfer(cfg.nodes[nid], state.get(nid, frozenset()))
+        if outs.get(nid) == o:
+            continue
+        outs[nid] = o
+        for suc in cfg.g.successors(nid):
+            merged = state.get(suc, frozenset()) | o
+            if merged != state.get(suc):
+                state[suc] = merged
+                work.append(suc)
+            elif suc not in outs:
+                work.append(suc)
+    at = state.get(target.id, frozenset())
+    R.shape(bool(at), "C15.R2", REL, "find_ND_labels", "a path to get_clean_labels")
+    bad = sorted(str(t) for t in at if t == "N" or t[0] != "Z")
+    R.check(not bad, "C15.R2", REL, post_[0].lineno, "find_ND_labels", "every path to the renumbering passes 'latest sweep count == 0' (states %s)" % sorted(map(str, at)),
+            "the loop can stop while edges still disagree: a path reaches get_clean_labels with the latest sweep count untested or non-zero (%s)" % bad)
+    R.check(len(post_[0].value.args) >= 1 and src(post_[0].value.args[0]) == "labels", "C15.R2", REL, post_[0].lineno, "find_ND_labels", "get_clean_labels(labels) after convergence",
+            "renumbering is not applied to the converged label array")
     rets = [r for r in ast.walk(fn) if isinstance(r, ast.Return)]
     R.check(len(rets) == 1 and src(rets[0].value) == "(n, labels)", "C15.R2", REL, fn.lineno, "find_ND_labels", "returns (n, labels)", "return value changed")
 
@@ -236,36 +281,38 @@ def r4(R, m):
     R.shape(len(lp) == 1, "C15.R4", REL, "numbapkmerge", "the loop over 2D peaks")
     lp = lp[0]
     k = src(lp.target)
-    env = {s.targets[0].id: src(s.value) for s in lp.body if isinstance(s, ast.Assign) and isinstance(s.targets[0], ast.Name)}
-    for s in ast.walk(lp):
-        if isinstance(s, ast.Assign) and isinstance(s.targets[0], ast.Name):
-            env.setdefault(s.targets[0].id, src(s.value))
-    R.check(env.get("j") == "labels[%s]" % k and env.get("frm") == "pks[4, %s]" % k and env.get("o") == "omega.flat[frm]" and env.get("y") == "dty.flat[frm]"
-            and env.get("scale") == "scale_factor.flat[frm]", "C15.R4", REL, lp.lineno, "numbapkmerge", "j = labels[k], frm = pks[4,k], o/y/scale looked up by frm",
-            "merged peak index, frame lookup or the per-frame quantities changed: %s" % env)
+    # local names are free: every expression is read with uniquely-defined locals replaced by their definitions
+    KEEP = tuple(a.arg for a in fn.args.args) + (k,)
+    rs = lambda n: pyfacts.resolved_src(fn, n, 4, keep=KEEP).replace(" ", "")
+    JX = "labels[%s]" % k
+    FRM = "pks[4,%s]" % k
 
     def rows(stmts):
         out = {}
         for s in stmts:
             if isinstance(s, ast.AugAssign) and isinstance(s.op, ast.Add) and isinstance(s.target, ast.Subscript) and src(s.target.value) == "out":
                 idx = s.target.slice
-                if isinstance(idx, ast.Tuple) and len(idx.elts) == 2 and isinstance(idx.elts[0], ast.Constant) and src(idx.elts[1]) == "j":
-                    out[idx.elts[0].value] = src(s.value).replace(" ", "")
+                if isinstance(idx, ast.Tuple) and len(idx.elts) == 2 and isinstance(idx.elts[0], ast.Constant):
+                    R.check(rs(idx.elts[1]) == JX, "C15.R4", REL, s.lineno, "numbapkmerge", "row %s accumulates into column labels[%s]" % (idx.elts[0].value, k),
+                            "a 2D peak is added to a merged peak other than the one its label names: %s" % rs(idx.elts[1]))
+                    out[idx.elts[0].value] = rs(s.value)
         return out
     top = rows(lp.body)
     ifs = [s for s in lp.body if isinstance(s, ast.If) and "scale_factor is not None" in src(s.test) and any(isinstance(x, ast.AugAssign) for x in s.body)]
     R.shape(len(ifs) == 1, "C15.R4", REL, "numbapkmerge", "the scale_factor branch")
     sc, nosc = rows(ifs[0].body), rows(ifs[0].orelse)
-    want = {1: "pks[1,%s]" % k, 2: "pks[2,%s]" % k, 3: "pks[3,%s]" % k, 4: "o*pks[1,%s]" % k, 5: "y*pks[1,%s]" % k}
+    OM, DT, SCALE = "omega.flat[%s]" % FRM, "dty.flat[%s]" % FRM, "scale_factor.flat[%s]" % FRM
+    want = {1: "pks[1,%s]" % k, 2: "pks[2,%s]" % k, 3: "pks[3,%s]" % k, 4: "%s*pks[1,%s]" % (OM, k), 5: "%s*pks[1,%s]" % (DT, k)}
     R.check(top == {0: "pks[0,%s]" % k, 6: "1"}, "C15.R4", REL, lp.lineno, "numbapkmerge", "rows 0 and 6: pixel count and number of 2D peaks %s" % top,
             "pixel count / member count are not plain sums over the members")
-    R.check(nosc == want, "C15.R4", REL, ifs[0].lineno, "numbapkmerge", "unscaled rows 1..5 %s" % nosc, "an intensity-weighted sum uses the wrong column")
-    R.check(sc == {r: v + "*scale" for r, v in want.items()}, "C15.R4", REL, ifs[0].lineno, "numbapkmerge", "scaled rows 1..5 = unscaled * scale",
+    R.check(nosc == want, "C15.R4", REL, ifs[0].lineno, "numbapkmerge", "unscaled rows 1..5 %s (frame = pks[4,k]; omega, dty looked up by frame)" % nosc,
+            "an intensity-weighted sum uses the wrong column, or the per-frame omega / dty are not looked up by the peak's frame")
+    R.check(sc == {r: v + "*" + SCALE for r, v in want.items()}, "C15.R4", REL, ifs[0].lineno, "numbapkmerge", "scaled rows 1..5 = unscaled * scale_factor.flat[frame]",
             "the scale-factor branch is not the other branch times the per-frame scale: %s" % sc)
     pm = m.func("pks_table.pk2dmerge")
     d = [n for n in ast.walk(pm) if isinstance(n, ast.Dict)]
     R.shape(len(d) == 1, "C15.R4", REL, "pks_table.pk2dmerge", "the output dictionary")
-    got = {k_.value: src(v).replace(" ", "") for k_, v in zip(d[0].keys, d[0].values)}
+    got = {k_.value: pyfacts.resolved_src(pm, v, 3, keep=("out", "self", "omega", "dty")).replace(" ", "") for k_, v in zip(d[0].keys, d[0].values)}
     exp = {"s_raw": "out[2]/out[1]", "f_raw": "out[3]/out[1]", "omega": "out[4]/out[1]", "dty": "out[5]/out[1]", "Number_of_pixels": "out[0]",
            "sum_intensity": "out[1]", "npk2d": "out[6]", "spot3d_id": "np.arange(self.nlabel)"}
     for key, e in exp.items():
